@@ -126,8 +126,8 @@ func c55Ops(thorough bool) []vsched.Op {
 
 func TestVerif_C55_globals(t *testing.T) {
 	vx.Run(t, "C55", func(c *vx.Ctx) {
-		bounds := vx.Pick(c, []int{2}, []int{-1})
-		c.Rule("concurrent part: for every unordered pair of calls from a small alphabet (each call applies one function to a short list of inputs and renders every result: ValidHeaderFieldName on two (thorough three) lists of names incl. all tchars, empty, separators, control and non-ASCII bytes; ValidHeaderFieldValue on two lists incl. HTAB, CR, LF, NUL, DEL, high bytes; HeaderValuesContainsToken on two (thorough three) lists of (values, token) incl. case folding, OWS trimming, empty elements, U+212A / U+017F; IsTokenRune on 14 runes around every boundary; ValidTrailerHeader, ValidHostHeader and PunycodeHostPort on a list each) two threads run one call each (thorough: twice each) on the instrumented http/httpguts source starting from the package's initial state; every schedule (quick: at most 2 preemptions; thorough: unbounded) at the scheduling points — before each statement mentioning a written package-level variable " + fmt.Sprint(zzWrittenGlobals) + ", sync.Once, sync.Pool Get/Put, sync.Mutex — is executed and each call must return what it returns alone")
+		bounds := vx.Pick(c, []int{2}, []int{3})
+		c.Rule("concurrent part: for every unordered pair of calls from a small alphabet (each call applies one function to a short list of inputs and renders every result: ValidHeaderFieldName on two (thorough three) lists of names incl. all tchars, empty, separators, control and non-ASCII bytes; ValidHeaderFieldValue on two lists incl. HTAB, CR, LF, NUL, DEL, high bytes; HeaderValuesContainsToken on two (thorough three) lists of (values, token) incl. case folding, OWS trimming, empty elements, U+212A / U+017F; IsTokenRune on 14 runes around every boundary; ValidTrailerHeader, ValidHostHeader and PunycodeHostPort on a list each) two threads run one call each (thorough: twice each) on the instrumented http/httpguts source starting from the package's initial state; every schedule (quick: at most 2 preemptions; thorough: at most 3) at the scheduling points — before each statement mentioning a written package-level variable " + fmt.Sprint(zzWrittenGlobals) + ", sync.Once, sync.Pool Get/Put, sync.Mutex — is executed and each call must return what it returns alone")
 		c.Assume("concurrent part: statement granularity at mentions of written package-level variables; accesses to heap objects only reachable from them and mutation through method calls are not scheduling points; golang.org/x/net/idna (used by PunycodeHostPort) is the uninstrumented package; if the package has no written package-level variable there is exactly one schedule per pair (the calls cannot interact through package state) and the part degenerates to a sequential differential test — it is kept because it is what catches a change that introduces shared state")
 		seq := 0
 		if !c.Quick() {
